@@ -47,7 +47,9 @@ CONSTANTS
   FftNeedsOneChunk,  \* TRUE: the code refuses an FFT over a chunked axis (fft_wrap)
   ChirpKeyByChannel, \* TRUE: the chirp's delayed key tokenises the channel frequency
   EagerOps,       \* operations whose Dask path computes its input while building (mutant models)
-  NumpyOps        \* operations whose Dask path returns a NumPy-backed result (mutant models)
+  NumpyOps,       \* operations whose Dask path returns a NumPy-backed result (mutant models)
+  ReaderPerBlock, \* TRUE: a dask read issues one _read_array per time chunk (mutant model)
+  OverwriteTags   \* transforms whose tasks work in place on the block they are given (mutant model)
 
 VARIABLES
   sig,      \* the current signal
@@ -427,6 +429,7 @@ Applies(s, o) ==
   IN CASE op = "tslice" -> TRUE
        [] op = "fslice" -> SliceLen(Arg(o, 1), Arg(o, 2), None, s.sh[2]) >= 1
        [] op = "ufunc" -> TRUE
+       [] op = "iufunc" -> TRUE          \* x += y, np.add(x, y, out=x): the same signal object, new graph
        [] op = "map_blocks" -> TRUE
        [] op = "map_blocks_col" -> FftNeedsOneChunk => Len(ChOf(s)[1]) = 1   \* documented: per-block application
        [] op = "to_intensity" -> IsBaseband(cls)
@@ -467,6 +470,7 @@ RunPlan(S, o, step) ==
   IN CASE op = "tslice" -> one(SliceRule(s, 1, Arg(o, 1), Arg(o, 2), Arg(o, 3), TimeSliceMeta(s, Arg(o, 1), Arg(o, 2), Arg(o, 3))), "getitem")
        [] op = "fslice" -> one(SliceRule(s, 2, Arg(o, 1), Arg(o, 2), None, FreqSliceMeta(s, Arg(o, 1), Arg(o, 2))), "getitem")
        [] op = "ufunc" -> one(EwRule(s, "abs", s.meta.cls), "absolute")
+       [] op = "iufunc" -> one(EwRule(s, "iadd", s.meta.cls), "add")
        [] op = "map_blocks" -> one(EwRule(s, "mb", s.meta.cls), "mapblocks")
        [] op = "map_blocks_col" -> one(ColRule(s, "mbcol", 1, <<>>, "", TRUE), "mapblocks")
        [] op = "to_intensity" -> one(EwRule(s, "abs2", "IntensitySignal"), "intensity")
@@ -513,20 +517,35 @@ Rechunk(S, k) ==
 (* Initial states                                                          *)
 (***************************************************************************)
 RootVal(sh) == [l \in Idx(sh) |-> X(l)]
+\* what a reader returns for a span of n samples may depend on the whole span (real-sampled
+\* baseband is converted with a transform over exactly the samples read): sample l of a read of n
+SpanVal(sh, off, n) == [l \in Idx(sh) |-> X(<<off + l[1], l[2], l[3], n>>)]
+SrcTask(name, n, osh, v) ==
+  [key |-> Key(name, <<n>>), kind |-> "src", par |-> NoPar, deps |-> <<>>, osh |-> osh, lit |-> v, den |-> v]
 MkRoot(r) ==
-  LET val == RootVal(r.sh)
+  LET val == IF r.back = "reader" THEN SpanVal(r.sh, 0, r.sh[1]) ELSE RootVal(r.sh)
       meta == [cls |-> r.cls, per |-> 4, t0 |-> 0, clo |-> 0, root |-> r]
-  IN IF r.back = "np"
-     THEN [sig |-> [sh |-> r.sh, back |-> "np", ch |-> <<>>, blk |-> <<>>, val |-> val, data |-> val, meta |-> meta],
-           g |-> <<>>]
-     ELSE [sig |-> [sh |-> r.sh, back |-> "dask", ch |-> r.ch, data |-> <<>>,
-                    blk |-> [b \in BlockSet(r.ch) |-> Rank(r.ch, b)], val |-> val, meta |-> meta],
-           \* sentinel input blocks: one task per block, counting its execution
-           g |-> [n \in 1..NB(r.ch) |->
-                    LET b == UnRank(r.ch, n)
-                        v == [l \in Idx(BSh(r.ch, b)) |-> X(V3Add(BOff(r.ch, b), l))]
-                    IN [key |-> Key("input", <<n>>), kind |-> "src", par |-> NoPar, deps |-> <<>>,
-                        osh |-> BSh(r.ch, b), lit |-> v, den |-> v]]]
+      npsig == [sh |-> r.sh, back |-> "np", ch |-> <<>>, blk |-> <<>>, val |-> val, data |-> val, meta |-> meta]
+  IN CASE r.back = "np" -> [sig |-> npsig, g |-> <<>>]
+       [] r.back = "reader" ->
+            \* reader.read(offset, n, use_dask=True, chunks=r.ch): ONE delayed _read_array of the whole
+            \* span (from_delayed), then rechunk.  Mutant model: one read per time chunk.
+            LET tch == IF ReaderPerBlock THEN r.ch[1] ELSE <<r.sh[1]>>
+                ch0 == <<tch, <<r.sh[2]>>, <<r.sh[3]>>>>
+                S0 == [sig |-> [npsig EXCEPT !.back = "dask", !.ch = ch0, !.data = <<>>,
+                                             !.blk = [b \in BlockSet(ch0) |-> b[1]]],
+                       g |-> [j \in 1..Len(tch) |->
+                                SrcTask("read", j, <<tch[j], r.sh[2], r.sh[3]>>,
+                                        SpanVal(<<tch[j], r.sh[2], r.sh[3]>>, Offs(tch)[j], tch[j]))]]
+            IN IF r.ch = ch0 THEN S0 ELSE Apply(S0, RechunkRule(S0.sig, r.ch), "rechunk")
+       [] OTHER ->
+            [sig |-> [npsig EXCEPT !.back = "dask", !.ch = r.ch, !.data = <<>>,
+                                   !.blk = [b \in BlockSet(r.ch) |-> Rank(r.ch, b)]],
+             \* sentinel input blocks: one task per block, counting its execution
+             g |-> [n \in 1..NB(r.ch) |->
+                      LET b == UnRank(r.ch, n)
+                      IN SrcTask("input", n, BSh(r.ch, b),
+                                 [l \in Idx(BSh(r.ch, b)) |-> X(V3Add(BOff(r.ch, b), l))])]]
 
 Idle == [st |-> "build", mode |-> "", sch |-> "", needed |-> {}]
 Init ==
@@ -609,14 +628,25 @@ ReadySet == {t \in phase.needed \ done : Range(graph[t].deps) \subseteq done}
 ExecIn(st, t) == LET r == graph[t]
                  IN BlockEval(r.kind, r.par, [j \in 1..Len(r.deps) |-> st[graph[r.deps[j]].key]], r.osh, r.lit)
 Put(f, k, v) == IF k \in DOMAIN f THEN [f EXCEPT ![k] = v] ELSE (k :> v) @@ f
+\* mutant model: a task that transforms "in place" scribbles over the block it was given; if that
+\* block is data held by the graph (a persisted block, a from_array block) the graph is damaged
+Scribbled(v) == [l \in DOMAIN v |-> T("garbage", <<>>, <<v[l]>>)]
+GraphAfter(t) ==
+  LET r == graph[t]
+  IN IF r.kind = "col" /\ r.par.f \in OverwriteTags /\ graph[r.deps[1]].kind = "src"
+     THEN [graph EXCEPT ![r.deps[1]].lit = Scribbled(graph[r.deps[1]].lit)]
+     ELSE graph
 RunTask(t) ==
   /\ phase.st = "run"
   /\ t \in ReadySet
-  /\ store' = Put(store, graph[t].key, ExecIn(store, t))
+  /\ store' = Put(IF GraphAfter(t) = graph THEN store
+                  ELSE Put(store, graph[graph[t].deps[1]].key, Scribbled(store[graph[graph[t].deps[1]].key])),
+                  graph[t].key, ExecIn(store, t))
+  /\ graph' = GraphAfter(t)
   /\ done' = done \cup {t}
   /\ nexec' = nexec + 1
   /\ choices' = Append(choices, Cardinality({r \in ReadySet : r < t}))
-  /\ UNCHANGED <<sig, graph, phase, hist>>
+  /\ UNCHANGED <<sig, phase, hist>>
 
 \* the samples found in the locations of the signal's blocks
 AssembledIn(st) ==
@@ -655,7 +685,7 @@ RECURSIVE RunSeq(_, _)
 RunSeq(st, ts) == IF ts = <<>> THEN st
                   ELSE RunSeq(Put(st, graph[Head(ts)].key, ExecIn(st, Head(ts))), Tail(ts))
 RunSync(mode) ==
-  /\ "sync" \in Scheds
+  /\ "sync" \in Scheds /\ OverwriteTags = {}
   /\ phase.st = "build" /\ NRuns < MaxRuns
   /\ sig.back = "dask"
   /\ mode = "persist" => Len(graph) + NB(sig.ch) <= MaxTasks + 4
@@ -666,10 +696,13 @@ RunSync(mode) ==
         /\ EndRun(mode, "sync", st, needed, choices')
   /\ UNCHANGED phase
 
+\* "peek" = x.compute() whose result is looked at while the Dask-backed object x lives on
+\* (same-object histories: look, change in place, look again); np.asarray(x) likewise
+Modes == {"compute", "persist", "asarray", "peek"}
 Next ==
   \/ \E o \in Ops : Transform(o) \/ Container(o)
   \/ \E sc \in Scheds : StartRun(sc)
-  \/ \E m \in {"compute", "persist", "asarray"} : RunNumpy(m) \/ FinishRun(m) \/ RunSync(m)
+  \/ \E m \in Modes : RunNumpy(m) \/ FinishRun(m) \/ RunSync(m)
   \/ \E t \in 1..Len(graph) : RunTask(t)
 Spec == Init /\ [][Next]_vars
 
@@ -692,6 +725,8 @@ ContainerOnly ==
 PersistHolds ==
   [][(hist' # hist /\ LastKind = "run" /\ hist'[Len(hist')].op = "persist" /\ sig.back = "dask") =>
        \A t \in Anc(graph', BlockTasks(sig')) : graph'[t].kind = "src" /\ graph'[t].deps = <<>>]_vars
+\* running never changes what the graph holds: a second run sees the same inputs
+InputsStable == [][\A t \in 1..Len(graph) : graph'[t].lit = graph[t].lit]_vars
 RefusalsLegit == \A j \in 1..Len(hist) : RefusalStep(hist[j].op, hist[j].a, hist[j].refused, hist[j].pre)
 
 \* the blocks of a Dask-backed signal denote the value NumPy computes; a computed signal holds it
